@@ -127,4 +127,80 @@ theorem osRun_refines (dec : Except Reader.Err ObjStm) (is : List Int) (st : OSS
     simp only [osRun, List.map_cons]
     rw [h1, ih _ h2]
 
+/-! ### the object as the code has it since c437385 (the header error is kept) -/
+
+/-- `GetObjectByIndex` of the model above, through `osAnswer` -/
+theorem osGetByIndex_eq (dec : Except Reader.Err ObjStm) (st : OSState) (idx : Int) :
+    osGetByIndex dec st idx =
+      match osDecode dec st with
+      | (none, st') => (none, st')
+      | (some os, st') =>
+        ((osAnswer os st'.objects idx).1, { st' with objects := (osAnswer os st'.objects idx).2 }) := by
+  unfold osGetByIndex
+  cases hdec : osDecode dec st with
+  | mk r st' =>
+    cases r with
+    | none => rfl
+    | some os =>
+      simp only
+      unfold osAnswer
+      by_cases hneg : idx < 0
+      · simp [hneg]
+      · simp only [hneg, if_false]
+        cases os.offsets[idx.toNat]? with
+        | none => rfl
+        | some p =>
+          obtain ⟨num, rel⟩ := p
+          simp only
+          cases Xref.getLast st'.objects idx.toNat with
+          | some o => rfl
+          | none =>
+            simp only
+            cases memberSlice os idx.toNat with
+            | none => rfl
+            | some q =>
+              obtain ⟨n', bytes⟩ := q
+              simp only
+              cases coreParse bytes with
+              | error e => rfl
+              | ok r => rfl
+
+/-- what the two state machines have in common: the same decoded stream and per-index cache;
+and a kept header error means the stream is one that does not decode -/
+def OSRel (dec : Except Reader.Err ObjStm) (sk : OSStateK) (s : OSState) : Prop :=
+  s.decoded = sk.decoded ∧ s.objects = sk.objects ∧
+    (sk.headerErr = true → sk.decoded = none ∧ ∃ e, dec = .error e)
+
+theorem osRel_empty (dec : Except Reader.Err ObjStm) : OSRel dec {} {} :=
+  ⟨rfl, rfl, by intro h; cases h⟩
+
+theorem osGetByIndexK_rel (keep : Bool) (dec : Except Reader.Err ObjStm) (sk : OSStateK) (s : OSState)
+    (idx : Int) (h : OSRel dec sk s) :
+    (osGetByIndexK keep dec sk idx).1 = (osGetByIndex dec s idx).1 ∧
+      OSRel dec (osGetByIndexK keep dec sk idx).2 (osGetByIndex dec s idx).2 := by
+  obtain ⟨hd, ho, he⟩ := h
+  rw [osGetByIndex_eq]
+  unfold osGetByIndexK osDecodeK osDecode OSRel
+  by_cases hk : sk.headerErr = true
+  · obtain ⟨hnone, e, hdec⟩ := he hk
+    subst hdec
+    simp [hk, hd, hnone, ho]
+  · have hk' : sk.headerErr = false := by simpa using hk
+    cases hsd : sk.decoded with
+    | some os => simp [hk', hd, hsd, ho]
+    | none =>
+      cases dec with
+      | ok os => simp [hk', hd, hsd, ho]
+      | error e => simp [hk', hd, hsd, ho]
+
+/-- the code of c437385 answers every call sequence exactly as the "stays undecoded" machine -/
+theorem osRunK_eq (keep : Bool) (dec : Except Reader.Err ObjStm) (is : List Int) (sk : OSStateK) (s : OSState)
+    (h : OSRel dec sk s) : osRunK keep dec sk is = osRun dec s is := by
+  induction is generalizing sk s with
+  | nil => rfl
+  | cons i is ih =>
+    obtain ⟨h1, h2⟩ := osGetByIndexK_rel keep dec sk s i h
+    simp only [osRunK, osRun]
+    rw [h1, ih _ _ h2]
+
 end Tabula.XrefFile
